@@ -12,18 +12,20 @@ PROP = 'C03'
 RULE = _c01.RULE + '; for C03 the stored list of every recorded bundle is also replayed by the model after the model-level undo'
 TRUSTED = _c01.TRUSTED
 ASSUMPTIONS = ['ValLaws (see C01)',
-               'theorem proved for bundles of doc actions (C03_redo_doc_partial: the stored list is the list of actions and '
-               'replay is a congruence for document equivalence); stored calc updates emitted at flush time are covered by '
-               'the event-trace tie (same stored list as the engine, replayed by the model to the same tables) and by the '
-               'redo oracle on the implementation, not yet by a theorem',
+               'proved class (C03_redo_docs_calcs_partial): doc actions, then calc deltas, then the flush, under the computable '
+               'side conditions bundle_ok2 (see C01); the stored list is then the doc actions followed by one update per '
+               'recalculated column',
+               'NOT proved: renames/removals between a calc delta and the flush, per-column flushes (doModifyColumn), lossy '
+               'doc actions; covered by the event-trace tie (same stored list as the engine, replayed by the model to the same '
+               'tables) and by the redo oracle on the implementation',
                'formula values after redo that are not written by a stored action rely on recalculation (C05)']
 TECHNIQUE = _c01.TECHNIQUE.replace('undo / whole-history undo oracles', 'undo-then-redo oracle')
-LEVEL_TEXT = ('Kernel-checked: replaying the stored doc actions of a doc-action bundle on the undone document gives a document '
-              'equivalent to the one the bundle produced; replay of any action list is a congruence for document equivalence '
-              '(what redo and collaborators rely on). Model compared with the running engine on recorded event traces; '
-              'undo-then-redo oracle on the implementation on every run.')
-LEVEL_NOTE = ('kernel strength, stage 1 (doc actions); bundles with calc deltas are validated by trace refinement and oracle '
-              'only (C03_statement is the full statement; C03_redo_doc_partial is what is proved).')
+LEVEL_TEXT = ('Kernel-checked for all documents and all bundles of the shape "doc actions, then calc deltas, then flush" passing '
+              'the computable side conditions: after the undo, replaying the stored list gives a document equivalent (tables, '
+              'schema, row ids, cells up to encoding) to the one the bundle produced; replay of any action list is a congruence '
+              'for document equivalence. Model compared with the running engine on recorded event traces; undo-then-redo '
+              'oracle on the implementation on every run.')
+LEVEL_NOTE = ('kernel strength; stage 3 interleavings and per-column flushes are _partial (trace refinement + oracle only).')
 PROOF_TIMEOUT = 900
 
 
@@ -43,6 +45,9 @@ def correspond(ctx):
               if code & b]
       ctx.broken('correspondence:K1 model vs engine trace (%s)' % ', '.join(bits),
                  json.dumps({'history': meta['history'], 'bundle': meta['bundle']}, default=repr)[:1500])
+    ctx.bump('theorem-hypotheses-hold' if not code & K.B_NOTHM else 'outside-proved-class')
+    if not code & K.B_NOTHM and code & K.B_MREDO and not code & K.B_MUNDO:
+      ctx.broken('theorem contradicted on a recorded trace', json.dumps({'bundle': meta['bundle']}, default=repr)[:800])
     if code & K.B_MREDO:
       eng = [i for i in res['issues'] if i['replay'].get('bundle') == meta['bundle']]
       if not eng and 'ReplaceTableData' not in meta['kinds']:
